@@ -207,11 +207,11 @@ func (s *SolverProc) emitDefs(tb *TB, ts []*Term) {
 }
 
 // Check asks whether the conjunction of assertions is satisfiable.
-func (s *SolverProc) Check(tb *TB, assertions []*Term, want []*Term, timeout time.Duration) CheckResult {
+func (s *SolverProc) Check(tb *TB, assertions []*Term, want []*Term, timeout time.Duration) (res CheckResult) {
 	s.mu.Lock()
 	defer s.mu.Unlock()
 	t0 := time.Now()
-	res := CheckResult{Status: "unknown", Backend: s.be.name}
+	res = CheckResult{Status: "unknown", Backend: s.be.name}
 	defer func() {
 		res.Dur = time.Since(t0)
 		s.Queries++
